@@ -37,7 +37,7 @@ def confirm(src, sid, prop):
   assert rc == 0, out
   try:
     demo_src = open(os.path.join(src, 'demo.py')).read()
-    demo = re.sub(r"/tmp/wt[456]?/C\d+\w*", wt, demo_src)
+    demo = re.sub(r"/tmp/wt[4567]?/C\d+\w*", wt, demo_src)
     demo_path = os.path.join(wt, '_seed_demo.py')
     open(demo_path, 'w').write(demo)
     rc0, out0 = sh([PY, demo_path], cwd=wt)
@@ -55,7 +55,7 @@ def confirm(src, sid, prop):
     dst = os.path.join(SEEDED, sid)
     os.makedirs(dst, exist_ok=True)
     shutil.copy(os.path.join(src, 'patch.diff'), os.path.join(dst, 'patch.diff'))
-    open(os.path.join(dst, 'demo.py'), 'w').write(re.sub(r"/tmp/wt[456]?/C\d+\w*", '/repo', demo_src))
+    open(os.path.join(dst, 'demo.py'), 'w').write(re.sub(r"/tmp/wt[4567]?/C\d+\w*", '/repo', demo_src))
     readme = open(os.path.join(src, 'README.md')).read() if os.path.exists(os.path.join(src, 'README.md')) else ''
     open(os.path.join(dst, 'README.md'), 'w').write(readme)
     meta = {
